@@ -9,7 +9,36 @@ from vf.quiet import quiet
 
 
 @st.composite
+def bbsum_case(draw):
+    """exact subset sum with a penalised shortfall: min s s.t. a'x + s == b, s >= 0, x binary, b the sum of a planted subset.
+    The optimum is 0 in closed form; the LP bound is 0 everywhere, so a branch-and-bound interface has to enumerate (ECOS_BB needs
+    thousands of nodes but well under a second for <= 14 binaries)."""
+    n = draw(st.integers(8, 14))
+    a = [float(draw(st.integers(500, 999))) for _ in range(n)]
+    sub = [draw(st.booleans()) for _ in range(n)]
+    return {'fam': 'bbsum', 'status': 'feasible', 'front': draw(st.sampled_from(['ro', 'dro'])), 'a': a, 'sub': sub,
+            'sense': draw(st.sampled_from(['min', 'max'])), 'display': False, 'log': False}
+
+
+def bbsum_build(case):
+    from rsome import ro, dro
+    m = ro.Model() if case['front'] == 'ro' else dro.Model()
+    a = np.array(case['a'])
+    x = m.dvar(len(a), 'B')
+    s = m.dvar()
+    if case['sense'] == 'min':
+        m.min(s)
+    else:
+        m.max(-s)
+    m.st(a @ x + s == float(a @ np.array(case['sub'], dtype=float)))
+    m.st(s >= 0)
+    return m
+
+
+@st.composite
 def c11_case(draw):
+    if draw(st.integers(0, 11)) == 0:
+        return draw(bbsum_case())
     fam = draw(st.sampled_from(['lp', 'lp', 'milp', 'milp', 'soc', 'misoc', 'exp']))
     names = {'lp': ['abs', 'norm1', 'norminf', 'maxof'], 'milp': ['abs', 'norminf', 'maxof'],
              'soc': ['abs', 'norm2', 'square', 'sumsqr', 'quad', 'pnorm', 'power', 'gmean'],
@@ -68,12 +97,14 @@ def interfaces(case):
     fam = case['fam']
     # ECOS_BB is not exercised: with RSOME's mi_max_iters=1e8 it ran for more than ten minutes on a 5-column box-bounded MILP
     # without constraints (seen at seed 1), and a hang is neither a verdict nor something a time limit can turn into one
-    return [i for i in _interfaces(case) if i[0] != 'ecos_bb']
+    return [i for i in _interfaces(case) if i[0] != 'ecos_bb' or fam == 'bbsum']
 
 
 def _interfaces(case):
     from rsome import grb_solver, eco_solver, ort_solver
     fam = case['fam']
+    if fam == 'bbsum':
+        return [('default', None, True), ('gurobi', grb_solver, True), ('ortools', ort_solver, True), ('ecos_bb', eco_solver, True)]
     if fam == 'lp':
         return [('default', None, True), ('gurobi', grb_solver, True), ('ortools', ort_solver, True), ('ecos', eco_solver, True)]
     if fam == 'milp':
@@ -127,7 +158,37 @@ def check_formula(f, x, tol):
     return None
 
 
+def ill_posed(results, tolv, delta=1e-6):
+    """True when, for some interface that solved the program, relaxing every inequality row and every column bound by `delta`
+    (the order of the solvers' feasibility tolerances) moves that same interface's optimal value by more than the comparison
+    tolerance. Example: 3*(x3/2 - 1.5)**4 <= 0 pins x3 = 3 exactly, but every x3 within 0.03 is feasible to 1e-6."""
+    import copy
+    from rsome import grb_solver, eco_solver
+    mods = {'gurobi': grb_solver, 'ecos': eco_solver}
+    for name, exact, solved, got, sol, f in results:
+        if not solved or name not in mods:
+            continue
+        f2 = copy.copy(f)
+        f2.const = np.array(f.const, dtype=float)
+        ineq = np.asarray(f.sense) == 0
+        f2.const[ineq] += delta * (1 + np.abs(f2.const[ineq]))
+        f2.lb = np.array(f.lb, dtype=float) - delta * (1 + np.abs(np.where(np.isfinite(f.lb), f.lb, 0.0)))
+        f2.ub = np.array(f.ub, dtype=float) + delta * (1 + np.abs(np.where(np.isfinite(f.ub), f.ub, 0.0)))
+        with quiet():
+            try:
+                s2 = mods[name].solve(f2, display=False)
+            except Exception:
+                continue
+        if s2 is None or s2.x is None or np.isnan(s2.objval):
+            continue
+        if abs(s2.objval - sol.objval) > 0.5 * tolv * (1 + abs(sol.objval)):
+            return True
+    return False
+
+
 def build(case):
+    if case['fam'] == 'bbsum':
+        return bbsum_build(case)
     m, x, pieces = detmodel.build(case)
     if case['status'] == 'unbounded':
         # a free column that the objective pushes to -infinity
@@ -175,11 +236,14 @@ class C11(Prop):
             'exp: ECOS). Oracle: (1) equal optimal values within tolerance and, for small MILPs, equal to brute-force '
             'enumeration; (2) each returned vector is checked against the compiled program by an independent checker (rows, senses, '
             'bounds, integrality, second-order and exponential cone membership); (3) infeasible/unbounded programs: NaN objective, '
-            'x None, get() raises RuntimeError, for every interface. ECOS_BB (integer programs through ECOS) is not exercised: it ran for minutes on a trivial box-bounded MILP. '
+            'x None, get() raises RuntimeError, for every interface. ECOS_BB (integer programs through ECOS) ran for minutes on a trivial box-bounded '
+            'MILP, so it is exercised only on one family with a closed-form optimum: exact subset sum with penalised shortfall over 8-14 '
+            'binaries (optimum 0, LP bound 0, so branch and bound has to enumerate thousands of nodes), solved through all four interfaces. '
             'Non-trivial = at least two interfaces compared and the '
             'program has an integer column, a cone, or is infeasible/unbounded; distinct by IR hash.')
     assumptions = ['CLP, CPLEX, Mosek and COPT are not installed: their interface modules cannot be exercised',
-                   'tolerance 1e-6 (LP/MILP) / 2e-4 (conic) relative on values, 1e-6 / 1e-5 on residuals; ECOS numerical failures on feasible programs are skipped']
+                   'tolerance 1e-6 (LP/MILP) / 2e-4 (conic) relative on values, 1e-6 / 1e-5 on residuals; ECOS numerical failures on feasible programs are skipped',
+                   'a disagreement between two conic interfaces is inconclusive when relaxing rows and bounds by 1e-6 moves one interface\'s own optimal value by more than half the comparison tolerance (ill-posed program, e.g. 3*u**4 <= 0)']
 
     def examples(self, tier):
         return 1000 if tier == 'quick' else 25000
@@ -220,6 +284,9 @@ class C11(Prop):
         tolv = 2e-4 if conic else 1e-6
         tolr = 1e-5 if conic else 1e-6
         ref = None
+        if fam == 'bbsum':
+            ref = 0.0
+            labels.append('closed_form')
         if fam == 'milp':
             bf, why = c07.brute_force_milp(case)
             if bf is not None:
@@ -228,11 +295,11 @@ class C11(Prop):
         exact_vals = []
         for name, exact, solved, got, sol, f in results:
             if not solved:
-                if name.startswith('ecos'):
+                if name.startswith('ecos') and fam != 'bbsum':
                     labels.append('unsolved:' + name)
                     continue
                 return Outcome.fail('no_solution:%s:%s' % (fam, name), '%s reports no solution (status %s) for a feasible bounded program' % (name, sol.status if sol else None), labels)
-            if 'lose' in str(sol.status):
+            if 'lose' in str(sol.status) and fam != 'bbsum':
                 labels.append('inexact:' + name)
                 continue
             msg = check_formula(f, sol.x, tolr)
@@ -249,9 +316,12 @@ class C11(Prop):
         if ref is not None:
             for name, got in exact_vals:
                 if abs(got - ref) > tolv * (1 + abs(ref)):
-                    return Outcome.fail('value_vs_enumeration:' + name, '%s returned %.9g, brute-force enumeration gives %.9g' % (name, got, ref), labels)
+                    return Outcome.fail('value_vs_enumeration:' + name, '%s returned %.9g, %s gives %.9g' % (name, got, 'the closed form' if fam == 'bbsum' else 'brute-force enumeration', ref), labels)
         for (n1, v1), (n2, v2) in zip(exact_vals, exact_vals[1:]):
             if abs(v1 - v2) > tolv * (1 + abs(v1)):
+                if conic and ill_posed(results, tolv):
+                    return Outcome.inconclusive('the optimal value moves by more than the comparison tolerance when rows and bounds are '
+                                                'relaxed by 1e-6: agreement within tolerance is not defined for this program', labels + ['ill_posed'])
                 return Outcome.fail('disagree:%s:%s-%s' % (fam, n1, n2), '%s returned %.9g but %s returned %.9g' % (n1, v1, n2, v2), labels)
         labels.append('iface:%d' % len(exact_vals))
         return Outcome.ok(len(results) >= 2 and fam != 'lp' or len(exact_vals) >= 3, labels)
